@@ -236,6 +236,23 @@ func c06Run(c *fw.Ctx) {
 		}
 	})
 	c.Sample(map[string]string{"family": "all strings <= maxLen over {* $ + - : 0 1 2 9 CR LF a}", "example": "*2\\r\\n$1"})
+	// (a') every byte value as the type byte of a top-level value and of an array element
+	for v := 0; v < 256; v++ {
+		for _, in := range [][]byte{
+			append([]byte{byte(v)}, "1\r\n"...),
+			append([]byte{byte(v)}, "\r\n"...),
+			append(append([]byte("*2\r\n$4\r\nINCR\r\n"), byte(v)), "1\r\n"...),
+			append(append([]byte("*1\r\n"), byte(v)), "3\r\nabc\r\n"...),
+			append(append([]byte("*1\r\n*1\r\n"), byte(v)), "\r\n"...),
+		} {
+			if !c.Mine() {
+				continue
+			}
+			c.Nontrivial()
+			c06RunOne(c, in, 0)
+			c06RunOne(c, in, 1)
+		}
+	}
 	// (b) structured family
 	bases := c06Bases()
 	var subCases [][]byte
@@ -261,6 +278,21 @@ func c06Run(c *fw.Ctx) {
 				}
 				m := append([]byte{}, base...)
 				m[k] = a
+				structured(m)
+			}
+		}
+		// every one of the 256 byte values at every position (lookup tables indexed by a
+		// stream byte, bytes next to the type characters, control and high bytes)
+		for k := 0; k < len(base); k++ {
+			for v := 0; v < 256; v++ {
+				if byte(v) == base[k] || bytes.IndexByte(alpha, byte(v)) >= 0 {
+					continue
+				}
+				if c.Quick() && len(base) > 24 && k > 12 && k < len(base)-4 {
+					continue // quick: head and tail of the longer bases
+				}
+				m := append([]byte{}, base...)
+				m[k] = byte(v)
 				structured(m)
 			}
 		}
@@ -453,7 +485,7 @@ func init() {
 	fw.Register(&fw.Prop{
 		ID:    "C06",
 		Level: "exploration",
-		Rule:  "(a) ALL byte strings of length <=6 (thorough <=8) over {* $ + - : 0 1 2 9 CR LF a}, each whole and 1-byte-at-a-time; (b) around 18 valid base streams: every truncation, every single-byte deletion, every single-byte substitution from the alphabet, every digit run replaced by each of 15 boundary numbers (thorough: splices of two bases); (c) declared sizes > 2^20 parsed in a sacrificial subprocess with RLIMIT_AS=8GiB whose actual fate (return, panic, fatal out-of-memory, fatal stack overflow) is the verdict; (d) nesting: 100 .. 2*10^6 (thorough 8*10^6) repetitions of an array header (alone, or behind a first element) closed, cut off, or ended by an empty array, in the same kind of subprocess. Non-trivial = the string starts a length-prefixed frame (family a) or is a structured edit (b, c).",
+		Rule:  "(a) ALL byte strings of length <=6 (thorough <=8) over {* $ + - : 0 1 2 9 CR LF a}, each whole and 1-byte-at-a-time; every one of the 256 byte values as the type byte of a top-level value, of a command argument and of a nested element; (b) around 18 valid base streams: every truncation, every single-byte deletion, every single-byte substitution from the alphabet and by every other byte value (quick: at the first 12 and last 4 positions of bases longer than 24 bytes), every digit run replaced by each of 15 boundary numbers (thorough: splices of two bases); (c) declared sizes > 2^20 parsed in a sacrificial subprocess with RLIMIT_AS=8GiB whose actual fate (return, panic, fatal out-of-memory, fatal stack overflow) is the verdict; (d) nesting: 100 .. 2*10^6 (thorough 8*10^6) repetitions of an array header (alone, or behind a first element) closed, cut off, or ended by an empty array, in the same kind of subprocess. Non-trivial = the string starts a length-prefixed frame (family a) or is a structured edit (b, c).",
 		Assumptions: []string{
 			"an address-space cap of 8 GiB stands for 'finite memory'; a fatal out-of-memory abort of the child counts as the process aborting",
 			"all byte strings up to 1 MiB and coverage-guided fuzzing are not claimed",
